@@ -131,19 +131,20 @@ Proof. exact recv_is_not_data. Qed.
 Print Assumptions C17_recv_is_not_data.
 
 (* ... tied to the source: EVERY assignment in grpclib/ to ping_count_in_sequence, last_ping_sent,
-   _ping_handle, _close_by_ping_handler (any module, any object; regenerated on every run): the counter
+   the periodic timer and the close timer (found by role; any module, any object; private helpers
+   folded into their callers; regenerated on every run): the counter
    is written by _ping (+1), headers_send_process (0), data_send_process (0) and nothing else *)
 Theorem C17_keepalive_writers :
   keepalive_writers =
   [ (s2z "ping_count_in_sequence",
-     [(s2z "protocol:Connection._ping", s2z "inc");
-      (s2z "protocol:Connection.headers_send_process", s2z "zero");
-      (s2z "protocol:Connection.data_send_process", s2z "zero")]);
-    (s2z "last_ping_sent", [(s2z "protocol:Connection._ping", s2z "now")]);
-    (s2z "_ping_handle",
-     [(s2z "protocol:Connection.initialize", s2z "arm"); (s2z "protocol:Connection._ping", s2z "arm")]);
-    (s2z "_close_by_ping_handler",
-     [(s2z "protocol:Connection._ping", s2z "arm");
+     [(s2z "protocol:Connection.PING_CALLBACK", s2z "inc");
+      (s2z "protocol:Connection.data_send_process", s2z "zero");
+      (s2z "protocol:Connection.headers_send_process", s2z "zero")]);
+    (s2z "last_ping_sent", [(s2z "protocol:Connection.PING_CALLBACK", s2z "now")]);
+    (s2z "PING_TIMER",
+     [(s2z "protocol:Connection.PING_CALLBACK", s2z "arm"); (s2z "protocol:Connection.initialize", s2z "arm")]);
+    (s2z "CLOSE_TIMER",
+     [(s2z "protocol:Connection.PING_CALLBACK", s2z "arm");
       (s2z "protocol:Connection.ping_ack_process", s2z "none")]) ].
 Proof. exact writers_exact. Qed.
 Print Assumptions C17_keepalive_writers.
@@ -198,9 +199,8 @@ Theorem C17_source_shape :
   src_close = expected_close /\
   src_ping_ack_process = expected_ping_ack_process /\
   src_headers_send_process = [SSet n_count (EConst 0)] /\
-  src_data_send_process = [SSet n_count (EConst 0); SSet (s2z "last_data_sent") ENow] /\
-  src_process_ping_ack_received = [SCall (s2z "ping_ack_process")] /\
-  call_sites = [(s2z "data_send_process", 2); (s2z "headers_send_process", 2)] /\
+  src_data_send_process = [SSet (s2z "last_data_sent") ENow; SSet n_count (EConst 0)] /\
+  src_ping_ack_handler = [SCall (s2z "ping_ack_process")] /\
   facts_ticks_per_second = ticks_per_second.
 Proof. exact source_shape. Qed.
 Print Assumptions C17_source_shape.
